@@ -1247,6 +1247,16 @@ impl<'a> GeneratorState<'a> {
     }
 
     pub fn generate_statement(&mut self, code: &'a StatementLoc<'a>) -> Result<(), Error> {
+        // Nothing is known about the flags when a function is entered: what the code generated
+        // for the previous function left in them says nothing about this one
+        if let Some(f) = &self.current_function {
+            if let Some(c) = self.functions_code.get(f) {
+                if c.is_empty() {
+                    self.flags = FlagsState::Unknown;
+                    self.carry_flag_ok = false;
+                }
+            }
+        }
         // Include C source code into generated asm
         // debug!("{:?}, {}, {}, {}", expr, pos, self.last_included_position, self.last_included_line_number);
         if self.insert_code {
